@@ -4,7 +4,7 @@ import ast
 import z3
 from .symexec import (SV, SStr, SBool, SInt, SNone, SAdt, PyConst, PySeq, PyDict, PyRec, SOpaque, Unsupported,
                       _Raise, _Return, _Break, _Continue, SExc, Obligation)
-from .contracts_api import Fold, Unroll, Filter, MapComp, InPlaceMap, BackwardSplice
+from .contracts_api import Fold, Unroll, Filter, MapComp, InPlaceMap, BackwardSplice, FindFirst
 from .speceval import Val
 from .speclang import SpecFn
 from .calls import spec_bool, spec_term
@@ -59,6 +59,8 @@ def exec_for(I, s: ast.For):
         return inplace_map_loop(I, s, k, rule)
     if isinstance(rule, BackwardSplice):
         return backward_splice_loop(I, s, k, rule)
+    if isinstance(rule, FindFirst):
+        return find_first_loop(I, s, k, rule)
     # concrete iteration (constant of the source, literal, *args tuple ...): exact unrolling
     it = I.eval(s.iter)
     items = I.iter_concrete(it, s)
@@ -345,6 +347,8 @@ def comprehension(I, e):
                                                 f"comprehension condition ≡ keep-predicate of {rule.fn}"))
             memo[mkey] = True
         return SAdt(src.sort, I.w.apply(rule.fn, src.t, *[ev.v for ev in extra_vals]), fresh=True)
+    if isinstance(rule, MapComp) and rule.fn and isinstance(src, SAdt):
+        return map_comp(I, e, k, rule, src)
     # element-wise over a concrete-length sequence
     items = I.iter_concrete(src, e)
     out = []
@@ -566,3 +570,131 @@ def backward_splice_loop(I, s: ast.For, k: int, rule: BackwardSplice):
         memo[tag] = True
     I.st.env[rule.list_var] = SAdt(lsort, w.apply(rule.fn, lst.t), fresh=True, pyclass=lst.pyclass)
     I.st.env[ivar] = SOpaque(f"value of {ivar} after loop {k}")
+
+
+# ------------------------------------------------------------------------------------------------
+def map_comp(I, e, k, rule: MapComp, src: SAdt):
+    """[f(x) for x in xs] over a symbolic list: result = fn(xs, args); obligations: f(c) == elem(c) for a fresh element, and fn is the map of elem"""
+    w = I.w
+    g = e.generators[0]
+    if g.ifs or not isinstance(g.target, ast.Name):
+        raise Unsupported(f"comprehension {k}: map rule needs `[f(x) for x in xs]`")
+    f = w.reg.fns[rule.fn]
+    lsort = f.params[0][1]
+    if src.sort != lsort:
+        raise Unsupported(f"comprehension {k}: source is {src.sort}, {rule.fn} maps {lsort}")
+    nil, cons, _tl = I.list_shape(src)
+    esort = I.ctor(cons).fields[0][1]
+    rsort = f.ret
+    rnil, rcons, _ = I.list_shape(SAdt(rsort, None))
+    resort = I.ctor(rcons).fields[0][1]
+    tag = f"{I.short()}:comp{k}"
+    outer_env = dict(I.st.env)
+    xenv = {}
+    for n_, v_ in outer_env.items():
+        try:
+            xenv[n_] = I.to_val(v_)
+        except Unsupported:
+            pass
+    extra_vals = [spec_term(I, rule.args[pn], xenv, tag, want=ps) for pn, ps in f.params[1:]]
+    memo = I.__dict__.setdefault("_loop_memo", {})
+    mkey = tag + "@" + "".join(map(str, I.trace.decisions))
+    where = I.src.line(I.module, e)
+    if mkey not in memo:
+        c = I.from_val(Val(esort, I.fresh(esort, g.target.id)))
+
+        def run():
+            I.st.env = dict(outer_env)
+            I.st.env[g.target.id] = c
+            return I.coerce_param(I.eval(e.elt), resort)
+        paths = I.explore(run)
+        env0 = dict(xenv)
+        env0["c"] = I.to_val(c)
+        want = spec_term(I, rule.elem, env0, tag, want=resort)
+        for pi, p in enumerate(paths):
+            if p.outcome != "return":
+                I.obligations.append(Obligation(f"R:{tag}.map.p{pi}", list(p.pc), z3.BoolVal(False), where, "R", "element expression raises"))
+                continue
+            I.obligations.append(Obligation(f"R:{tag}.map.p{pi}", list(p.pc), I.to_val(p.value).v == want.v, where, "R", f"element expression ≡ `{rule.elem}`"))
+        r0 = I.fresh(lsort, "r")
+        consv = w.ctor_fn(I.ctor(cons))(I.to_val(c).v, r0)
+        I.obligations.append(Obligation(f"R:{tag}.map.cons", list(I.st.pc), w.apply(rule.fn, consv, *[ev.v for ev in extra_vals]) ==
+                                        w.ctor_fn(I.ctor(rcons))(want.v, w.apply(rule.fn, r0, *[ev.v for ev in extra_vals])), where, "R", f"{rule.fn} is the map of the element expression"))
+        I.obligations.append(Obligation(f"R:{tag}.map.nil", list(I.st.pc), w.apply(rule.fn, w.ctor_fn(I.ctor(nil)), *[ev.v for ev in extra_vals]) == w.ctor_fn(I.ctor(rnil)), where, "R", ""))
+        memo[mkey] = True
+    return SAdt(rsort, w.apply(rule.fn, src.t, *[ev.v for ev in extra_vals]), fresh=True, pyclass="list")
+
+
+def find_first_loop(I, s: ast.For, k: int, rule: FindFirst):
+    w = I.w
+    it = s.iter
+    if not (isinstance(it, ast.Call) and isinstance(it.func, ast.Name) and it.func.id == "enumerate" and len(it.args) == 1):
+        raise Unsupported(f"loop {k}: expected `for i, x in enumerate(xs)`")
+    names = target_names(s.target)
+    if len(names) != 2:
+        raise Unsupported("find-first loop target")
+    ivar, xvar = names
+    lst = I.eval(it.args[0])
+    if not (isinstance(lst, SAdt) and I.list_shape(lst)):
+        raise Unsupported(f"loop {k}: not a symbolic list")
+    nil, cons, _tl = I.list_shape(lst)
+    esort = I.ctor(cons).fields[0][1]
+    outer_env = dict(I.st.env)
+    tag = f"{I.short()}:loop{k}" + ("" if not I.trace.decisions else "@" + "".join(map(str, I.trace.decisions)))
+    memo = I.__dict__.setdefault("_loop_memo", {})
+    where = I.src.line(I.module, s)
+    if tag not in memo:
+        c = I.from_val(Val(esort, I.fresh(esort, xvar)))
+        idx = SInt(I.fresh("Int", ivar))
+        assigned = assigned_names(s.body)
+
+        def run():
+            I.st.env = dict(outer_env)
+            I.st.env[ivar] = idx
+            I.st.env[xvar] = c
+            try:
+                I.exec_block(s.body)
+            except _Break:
+                return PySeq([SBool(z3.BoolVal(True)), I.st.env.get(rule.var, SNone())], "tuple")
+            except _Continue:
+                pass
+            return PySeq([SBool(z3.BoolVal(False)), I.st.env.get(rule.var, SNone())], "tuple")
+        paths = I.explore(run)
+        pred = spec_bool(I, rule.pred, {"c": I.to_val(c)}, tag)
+        if assigned - {rule.var}:
+            I.obligations.append(Obligation(f"R:{tag}.body.state", list(I.st.pc), z3.BoolVal(False), where, "R", f"the loop body assigns {sorted(assigned - {rule.var})} besides `{rule.var}`"))
+        for pi, p in enumerate(paths):
+            pname = f"R:{tag}.body.p{pi}"
+            if p.outcome != "return":
+                I.obligations.append(Obligation(pname + ".raises", list(p.pc), z3.BoolVal(False), where, "R", "find-first body raises"))
+                continue
+            broke, var = p.value.items
+            b = z3.is_true(z3.simplify(broke.t))
+            I.obligations.append(Obligation(pname + ".break-iff", list(p.pc), pred if b else z3.Not(pred), where, "R", f"the body breaks exactly when `{rule.pred}`"))
+            if b:
+                okv = isinstance(var, SInt) and var.t.eq(idx.t)
+                I.obligations.append(Obligation(pname + ".index", list(p.pc), z3.BoolVal(bool(okv)), where, "R", f"`{rule.var}` is set to the loop index on break"))
+            else:
+                same = var is outer_env.get(rule.var) or (isinstance(var, SNone) and isinstance(outer_env.get(rule.var), SNone))
+                I.obligations.append(Obligation(pname + ".unchanged", list(p.pc), z3.BoolVal(bool(same)), where, "R", f"`{rule.var}` is unchanged when the element does not match"))
+        # `has` is `exists pred`, `first` / `replace` act on the first match
+        r0 = I.fresh(I.list_shape and lst.sort, "r")
+        cv = I.to_val(c).v
+        consv = w.ctor_fn(I.ctor(cons))(cv, r0)
+        v0 = I.fresh(esort, "v")
+        I.obligations.append(Obligation(f"R:{tag}.has.cons", list(I.st.pc), w.apply(rule.has, consv) == z3.Or(pred, w.apply(rule.has, r0)), where, "R", ""))
+        I.obligations.append(Obligation(f"R:{tag}.has.nil", list(I.st.pc), z3.Not(w.apply(rule.has, w.ctor_fn(I.ctor(nil)))), where, "R", ""))
+        I.obligations.append(Obligation(f"R:{tag}.first.cons", list(I.st.pc), w.apply(rule.first, consv) == z3.If(pred, cv, w.apply(rule.first, r0)), where, "R", ""))
+        I.obligations.append(Obligation(f"R:{tag}.replace.cons", list(I.st.pc), w.apply(rule.replace, consv, v0) ==
+                                        z3.If(pred, w.ctor_fn(I.ctor(cons))(v0, r0), w.ctor_fn(I.ctor(cons))(cv, w.apply(rule.replace, r0, v0))), where, "R", ""))
+        memo[tag] = True
+    if not isinstance(outer_env.get(rule.var), SNone):
+        raise Unsupported(f"loop {k}: `{rule.var}` must be None before a find-first loop")
+    if I.branch(w.apply(rule.has, lst.t)):
+        iv = SInt(I.fresh("Int", rule.var))
+        iv.first_of = (lst.t, rule)          # symbolic index of the first match in this list
+        I.st.env[rule.var] = iv
+    else:
+        I.st.env[rule.var] = SNone()
+    for t in names:
+        I.st.env[t] = SOpaque(f"value of {t} after loop {k}")
